@@ -155,6 +155,8 @@ def gen_cond(rng, prof, flavour, depth, nev, npids):
         r = rng.random()
         if depth < prof.get("cond_depth", 3) - 1 and r < 0.25:
             kids.append(gen_cond(rng, prof, flavour, depth + 1, nev, npids))
+        elif r < 0.31 and depth == 0 and prof.get("reuse_conditions"):
+            kids.append(["c", rng.randrange(8)])         # a condition this program built EARLIER (possibly processed by now)
         elif r < 0.65 or (nev == 0 and npids == 0):
             kids.append(["t", gen_delay(rng, flavour)])
         elif r < 0.88 and nev:
@@ -178,7 +180,10 @@ def gen_script(rng, prof, flavour, idx, nscripts, nev, npids_guess):
     for _ in range(nops):
         k = rng.choices(kinds, weights)[0]
         if k == "timeout":
-            ops.append(["timeout", gen_delay(rng, flavour)] + (["ctor"] if rng.random() < 0.1 else []))
+            d = gen_delay(rng, flavour)
+            if flavour != "rational" and rng.random() < prof.get("p_inf_delay", 0.0):
+                d = float("inf")            # "sleep for ever": due at the instant inf, which is an instant like any other
+            ops.append(["timeout", d] + (["ctor"] if rng.random() < 0.1 else []))
         elif k == "chain" and nev >= 2:
             a, b = rng.sample(range(nev), 2)
             ops.append(["chain", a, b])
@@ -285,6 +290,7 @@ class Runner:
         self.ptime = {}
         self.pout = {}           # label -> outcome (canonical)
         self.conds = []          # info dicts of every condition built
+        self.built = []          # (condition event, info) in construction order
         self.cond_operands = set()
         self.escapes = []
         self.shared = []
@@ -378,6 +384,7 @@ class Runner:
     def build_cond(self, tree):
         mode, style, kids = tree
         evs, ltree = [], []
+        reused = False
         for k in kids:
             if k[0] == "t":
                 ev, lab = self.new_timeout(k[1])
@@ -390,6 +397,15 @@ class Runner:
                 if k[1] < len(self.procs) and self.procs[k[1]] is not None:
                     evs.append(self.procs[k[1]])
                     ltree.append(f"P{k[1]}")
+            elif k[0] == "c":
+                # only conditions that have been PROCESSED by now ("operands already processed at construction"): a
+                # pending sub-condition shared by two parents would make the operands a DAG, not a tree (the quantifier)
+                done = [b for b in self.built if b[0].callbacks is None]
+                if done:
+                    ev, sub = done[k[1] % len(done)]
+                    evs.append(ev)
+                    ltree.append(sub)
+                    reused = True
             else:
                 ev, sub = self.build_cond(k)
                 evs.append(ev)
@@ -426,7 +442,10 @@ class Runner:
             self.cond_operands.add(l if isinstance(l, str) else l["label"])
         info = {"label": label, "mode": mode, "kids": ltree, "now": env.now, "step": step0,
                 "pre": [isinstance(l, str) and l in self.pstep for l in ltree]}
+        if reused or any(isinstance(l, dict) and l.get("reused_sub") for l in ltree):
+            info["reused_sub"] = True        # staged construction: left to the spec-kernel comparison, not to the closed form
         self.conds.append(info)
+        self.built.append((c, info))
         return c, info
 
     # -- the process body -------------------------------------------------------
@@ -734,6 +753,8 @@ def count_extras(ctx, r):
     """evidence: how often the less common call forms were exercised (program ops and what fired)"""
     if r.prog.get("flavour") == "rational":
         ctx.count("rational_clock_programs")
+    if any(op[0] == "timeout" and op[1] == float("inf") for sc in r.prog["scripts"] for op in sc["ops"]):
+        ctx.count("programs_with_timeouts_at_infinity")
     for sc in r.prog["scripts"]:
         for op in sc["ops"]:
             if op[0] == "timeout" and len(op) > 2:
@@ -1073,7 +1094,18 @@ class Monitor:
         self._close_instant()
         self.inst = None
         r = self.r
-        drained = r.env.peek() == float("inf")
+        # (peek() == inf means "nothing scheduled" OR "the next occurrence is due at the instant inf": drained is only
+        # what the runner saw -- its last run() call returned because the agenda was exhausted)
+        ended = [e for e in r.tape if e[1] == "run-end"]
+        drained = r.env.peek() == float("inf") and (not ended or ended[-1][2] == "ret")
+        if drained:
+            try:
+                r.env.step()
+                drained = False                  # something was still scheduled (at the instant inf)
+            except r.K.EmptySchedule:
+                pass
+            except BaseException:
+                drained = False
         if self.use_ints and drained:
             for c, rec in self.ints.items():
                 if rec["done"] is False:
@@ -1189,6 +1221,9 @@ def cond_closed_form(r):
                 nested.add(k["label"])
     for lab, info in byl.items():
         if lab in nested or lab not in waits:
+            continue
+        if info.get("reused_sub"):
+            stats["staged_conditions"] = stats.get("staged_conditions", 0) + 1
             continue
         stats["conds"] += 1
         if any(not isinstance(k, str) for k in info["kids"]):
